@@ -676,7 +676,7 @@ _GEN_ARO = ['c'] * 6 + ['n', 'n', 'o', 's']
 _GEN_BR = ['[NH4+]', '[O-]', '[N+]', '[NH3+]', '[13CH3]', '[13C]', '[2H]', '[Na+]', '[Fe+2]', '[Fe++]', '[Cu+2]', '[S-]', '[OH-]', '[nH]',
            '[n+]', '[C@H]', '[C@@H]', '[C@]', '[C@@]', '[N@+]', '[S@]', '[P@@]', '[C:1]', '[CH3:2]', '[N:3]', '[O-:4]', '[15NH2:12]', '[Si]',
            '[se]', '[Se]', '[CH2-]', '[C-]', '[O+]', '[N-]', '[B-]', '[Al+3]', '[Cl-]', '[Br-]', '[CH]', '[CH2]', '[C--]', '[Zn++]', '[18O]',
-           '[14c]', '[cH]', '[c-]', '[te]', '[as]', '[H]', '[H+]', '[3H]', '[U+4]', '[Pt-2]', '[NH2:0]', '[C@@H:7]', '[13C@H]', '[Sn-4]']
+           '[14c]', '[cH]', '[CH3:1234]', '[N:999]', '[O:0012]', '[c-]', '[te]', '[as]', '[H]', '[H+]', '[3H]', '[U+4]', '[Pt-2]', '[NH2:0]', '[C@@H:7]', '[13C@H]', '[Sn-4]']
 _GEN_BOND = ['', '', '', '', '', '-', '=', '=', '#', '/', '\\', ':', '~']
 
 
